@@ -561,6 +561,7 @@ type CountFS struct {
 	OnOpen func(name string) bool // false: refuse
 	Fail   map[string]int         // file name -> number of bytes after which reading fails with ErrIO
 	OnFail func()                 // called when such a file hands out ErrIO
+	Once   bool                   // the failures are transient (see failFile)
 }
 
 // MaxOpens: after this many Opens the wrapper refuses (so that a parser without a depth limit
@@ -575,7 +576,7 @@ func (c CountFS) Open(name string) (fs.File, error) {
 	}
 	f, err := c.FS.Open(name)
 	if k, ok := c.Fail[name]; ok && err == nil {
-		return &failFile{f, k, c.OnFail}, nil
+		return &failFile{File: f, left: k, onFail: c.OnFail, once: c.Once}, nil
 	}
 	return f, err
 }
@@ -588,10 +589,16 @@ type failFile struct {
 	fs.File
 	left   int
 	onFail func()
+	once   bool // transient: ErrIO once, then the rest of the file
+	failed bool
 }
 
 func (f *failFile) Read(p []byte) (int, error) {
+	if f.once && f.failed {
+		return f.File.Read(p)
+	}
 	if f.left <= 0 {
+		f.failed = true
 		if f.onFail != nil {
 			f.onFail()
 		}
@@ -618,10 +625,13 @@ type PosReader struct {
 	Pos    int
 	Fail   int // > 0: reading fails with ErrIO once Fail-1 bytes have been read
 	OnFail func()
+	Once   bool // the failure is transient: ErrIO is handed out once, after that the reader goes on delivering
+	failed bool
 }
 
 func (p *PosReader) ReadByte() (byte, error) {
-	if p.Fail > 0 && p.Pos >= p.Fail-1 {
+	if p.Fail > 0 && p.Pos >= p.Fail-1 && !(p.Once && p.failed) {
+		p.failed = true
 		if p.OnFail != nil {
 			p.OnFail()
 		}
@@ -654,6 +664,7 @@ type RunCfg struct {
 	NoMem      bool           // do not measure allocation (runtime.ReadMemStats stops the world)
 	FailTop    int            // > 0: the zone's own reader fails with ErrIO after FailTop-1 bytes
 	FailFS     map[string]int // include file name -> bytes after which reading it fails with ErrIO
+	FailOnce   bool           // the injected read errors are transient: the reader fails once and then goes on delivering
 }
 
 type Observed struct {
@@ -667,6 +678,7 @@ type Observed struct {
 	PEFile  string
 	PELine  int
 	PECol   int
+	After   []Rec // records handed out AFTER Next had returned (nil, false) (a consumer that keeps calling; capped at 16)
 	Opens   []string
 	Sticky  string // "" or what went wrong after the end
 	Panic   string
@@ -682,6 +694,15 @@ type EvNext struct {
 	Ev  string `json:"ev"`
 	Res string `json:"res"`
 	ID  int    `json:"id"`
+}
+
+// EvPoll: what Err() said when asked between two calls of Next (logged only when the answer changes: the first
+// non-nil answer, another error, an error that vanished).
+type EvPoll struct {
+	Ev  string `json:"ev"`
+	Res string `json:"res"` // err | nil
+	ID  int    `json:"id"`  // 1: the error Err() reports at the end; 2: another one; 0: nil
+	err error
 }
 type EvOpen struct {
 	Ev   string `json:"ev"`
@@ -761,7 +782,7 @@ func Run(text []byte, c RunCfg) (o Observed) {
 			o.Events = append(o.Events, map[string]string{"ev": "readfail"})
 		}
 	}
-	rd := &PosReader{Data: text, Fail: c.FailTop, OnFail: readFail}
+	rd := &PosReader{Data: text, Fail: c.FailTop, OnFail: readFail, Once: c.FailOnce}
 	file := c.File
 	zp := dns.NewZoneParser(rd, c.Origin, file)
 	if c.DefTTL >= 0 {
@@ -769,7 +790,7 @@ func Run(text []byte, c RunCfg) (o Observed) {
 	}
 	zp.SetIncludeAllowed(c.IncAllowed)
 	if c.FS != nil {
-		zp.SetIncludeFS(CountFS{FS: c.FS, Fail: c.FailFS, OnFail: readFail, OnOpen: func(n string) bool {
+		zp.SetIncludeFS(CountFS{FS: c.FS, Fail: c.FailFS, OnFail: readFail, Once: c.FailOnce, OnOpen: func(n string) bool {
 			o.Opens = append(o.Opens, n)
 			if len(o.Opens) <= 80 {
 				o.Events = append(o.Events, EvOpen{"open", hx.FromString(n)})
@@ -782,6 +803,24 @@ func Run(text []byte, c RunCfg) (o Observed) {
 	if max == 0 {
 		max = 1 << 30
 	}
+	// Err() is asked before the first Next and after every record (an error exists as soon as Err() shows it, not only
+	// once Next has returned false); the answer is logged when it changes
+	var polls []*EvPoll
+	var lastPoll error
+	poll := func() {
+		e := zp.Err()
+		if e == lastPoll {
+			return
+		}
+		lastPoll = e
+		p := &EvPoll{Ev: "poll", Res: "nil", err: e}
+		if e != nil {
+			p.Res = "err"
+		}
+		polls = append(polls, p)
+		o.Events = append(o.Events, p)
+	}
+	poll()
 	for rr, ok := zp.Next(); ok; rr, ok = zp.Next() {
 		if rr == nil {
 			o.Sticky = "Next returned (nil, true)"
@@ -799,9 +838,22 @@ func Run(text []byte, c RunCfg) (o Observed) {
 			o.Sticky = "more than 200000 records"
 			break
 		}
+		poll()
 	}
 	o.ErrAt = rd.Pos
 	o.Err = zp.Err()
+	if o.Err != nil {
+		o.ErrText = o.Err.Error()
+	}
+	for _, p := range polls {
+		switch {
+		case p.err == nil:
+		case p.err == o.Err && p.err.Error() == o.ErrText:
+			p.ID = 1
+		default:
+			p.ID = 2
+		}
+	}
 	errID := func(e error) int {
 		if e == nil {
 			return 0
@@ -828,13 +880,19 @@ func Run(text []byte, c RunCfg) (o Observed) {
 	} else {
 		o.Events = append(o.Events, EvNext{"next", "eof", 0})
 	}
-	// after the end: Next keeps saying (nil, false) and Err keeps saying the same thing
-	for i := 0; i < 3; i++ {
+	// after the end: a consumer that keeps calling.  Next keeps saying (nil, false) and Err keeps saying the same thing;
+	// the calls go on until three in a row have returned no record (at most 40), what they hand out is kept in After
+	for i, quiet := 0, 0; i < 40 && quiet < 3; i++ {
 		rr, ok := zp.Next()
 		e := zp.Err()
+		quiet++
 		switch {
 		case ok || rr != nil:
+			quiet = 0
 			o.Events = append(o.Events, EvNext{"next", "rr", 0})
+			if rr != nil && len(o.After) < 16 {
+				o.After = append(o.After, RecOf(rr, buf))
+			}
 			if o.Sticky == "" {
 				o.Sticky = fmt.Sprintf("Next returned a record (%v, %v) after it had returned (nil, false)", rr, ok)
 			}
